@@ -89,6 +89,11 @@ def compile : Ast → List Instr
     if n == [45] then [.push (negateVal (valOfNumberText t))]
     else if n == [43] then [.push (valOfNumberText t)]
     else [.push (valOfNumberText t), .callUnary (lower n)]
+  | .unary n (.leaf (.hex t)) =>
+    -- … and so is a sign in front of a hexadecimal literal
+    if n == [45] then [.push (negateVal (valOfHexText t))]
+    else if n == [43] then [.push (valOfHexText t)]
+    else [.push (valOfHexText t), .callUnary (lower n)]
   | .unary n a => compile a ++ [.callUnary (lower n)]
   | .binary k n l r => compile l ++ compile r ++ [.callBinary (lower n) k]
   | .array es => compileList es ++ [.makeArray es.length]
